@@ -127,6 +127,7 @@ pub fn c06_subs() -> Vec<Box<dyn Sub>> {
             strat: Box::new(|| reg_wild().boxed()),
             body: Box::new(c06_body),
             guard_death: false,
+            max_shrink: 4096,
         }),
         Box::new(Check {
             name: "layout_wf",
@@ -135,6 +136,7 @@ pub fn c06_subs() -> Vec<Box<dyn Sub>> {
             strat: Box::new(|| reg_wf(12).boxed()),
             body: Box::new(c06_body),
             guard_death: false,
+            max_shrink: 4096,
         }),
     ]
 }
@@ -254,6 +256,7 @@ pub fn c07_subs() -> Vec<Box<dyn Sub>> {
             strat: Box::new(|| c07_strat(false)),
             body: Box::new(c07_body),
             guard_death: false,
+            max_shrink: 4096,
         }),
         Box::new(Check {
             name: "roundtrip_wf",
@@ -262,6 +265,7 @@ pub fn c07_subs() -> Vec<Box<dyn Sub>> {
             strat: Box::new(|| c07_strat(true)),
             body: Box::new(c07_body),
             guard_death: false,
+            max_shrink: 4096,
         }),
     ]
 }
@@ -378,6 +382,7 @@ pub fn c08_subs() -> Vec<Box<dyn Sub>> {
             strat: Box::new(|| reg_wild().boxed()),
             body: Box::new(c08_body),
             guard_death: false,
+            max_shrink: 4096,
         }),
         Box::new(Check {
             name: "json_wf",
@@ -386,6 +391,7 @@ pub fn c08_subs() -> Vec<Box<dyn Sub>> {
             strat: Box::new(|| reg_wf(10).boxed()),
             body: Box::new(c08_body),
             guard_death: false,
+            max_shrink: 4096,
         }),
     ]
 }
@@ -525,6 +531,7 @@ pub fn c10_subs() -> Vec<Box<dyn Sub>> {
             strat: Box::new(|| c10_strat(10)),
             body: Box::new(c10_body),
             guard_death: true,
+            max_shrink: 4096,
         }),
         Box::new(Check {
             name: "retain_large",
@@ -533,6 +540,7 @@ pub fn c10_subs() -> Vec<Box<dyn Sub>> {
             strat: Box::new(|| c10_strat(64)),
             body: Box::new(c10_body),
             guard_death: true,
+            max_shrink: 4096,
         }),
     ]
 }
